@@ -1,0 +1,19 @@
+//go:build verif
+
+package node
+
+import (
+	"github.com/rigochain/rigo-go/ctrlers/account"
+	"github.com/rigochain/rigo-go/ctrlers/gov"
+	"github.com/rigochain/rigo-go/ctrlers/stake"
+	rctypes "github.com/rigochain/rigo-go/ctrlers/types"
+	"github.com/rigochain/rigo-go/ctrlers/vm/evm"
+)
+
+func (ctrler *RigoApp) VerifAcct() *account.AcctCtrler           { return ctrler.acctCtrler }
+func (ctrler *RigoApp) VerifStake() *stake.StakeCtrler           { return ctrler.stakeCtrler }
+func (ctrler *RigoApp) VerifGov() *gov.GovCtrler                 { return ctrler.govCtrler }
+func (ctrler *RigoApp) VerifEVM() *evm.EVMCtrler                 { return ctrler.vmCtrler }
+func (ctrler *RigoApp) VerifMetaDB() *rctypes.MetaDB             { return ctrler.metaDB }
+func (ctrler *RigoApp) VerifNextBlockCtx() *rctypes.BlockContext { return ctrler.nextBlockCtx }
+func (ctrler *RigoApp) VerifLastBlockCtx() *rctypes.BlockContext { return ctrler.lastBlockCtx }
